@@ -174,18 +174,26 @@ def _required_cfi_directives(
     results: List[_auxdata.CFIDirectiveType] = []
     procedure_directives: List[_auxdata.CFIDirectiveType] = []
     for _, directives in sorted(displacement_map.items()):
+        in_initial_state = False
         for directive in directives:
             append_to = procedure_directives or results
             if directive[0] == ".cfi_startproc":
                 procedure_directives.append(directive)
+                in_initial_state = True
             elif directive[0] == ".cfi_endproc":
                 append_to.append(directive)
                 procedure_directives.clear()
+                in_initial_state = False
             elif directive[0] in (
                 ".cfi_remember_state",
                 ".cfi_restore_state",
             ):
                 append_to.append(directive)
+            elif in_initial_state:
+                # Directives at the same offset as the .cfi_startproc describe
+                # the procedure's initial state (they come from the CIE), not
+                # a side effect of the instructions being deleted.
+                procedure_directives.append(directive)
 
     results.extend(procedure_directives)
     return results
